@@ -69,7 +69,7 @@ def run(v, prop, tier, seed, exhaustive=None):
     if big:
         threads.append(_tlc_bg(results, "mc-1branch-4commits", "System2", "System2.mc1.cfg", workers=6, timeout=3000, heap="12g"))
         threads.append(_tlc_bg(results, "mc-2branches-3commits", "System2", "System2.mc2.cfg", workers=6, timeout=3000, heap="12g"))
-        threads.append(_tlc_bg(results, "coverage", "System2", "System2.cov.cfg", workers=4, timeout=3000, heap="6g", coverage=True))
+        threads.append(_tlc_bg(results, "coverage", "System2", "System2.cov.cfg", workers=4, timeout=3000, heap="14g", coverage=True))
     # (B) behaviours
     scen = os.path.join(vlib.sub("scn"), "system2.ndjson")
     workers = 2 if quick else 6
